@@ -561,3 +561,68 @@ func sliceSourceField(v ssa.Value) string {
 	}
 	return ""
 }
+
+// coreOf: when fn is a thin wrapper — it hands all its own parameters (receiver included) to exactly one
+// function of its package and returns that call's non-error results unchanged — the logic lives in the
+// callee, and rules about "what fn does" analyse the callee. The wrapper may decorate the error.
+func coreOf(fn *ssa.Function) *ssa.Function {
+	for depth := 0; depth < 2; depth++ {
+		var cand *ssa.Call
+		n := 0
+		for _, c := range callsIn(fn, false) {
+			call, isCall := c.(*ssa.Call)
+			if !isCall {
+				continue
+			}
+			g := call.Call.StaticCallee()
+			if g == nil || g.Pkg != fn.Pkg || len(g.Blocks) == 0 || g == fn {
+				continue
+			}
+			n++
+			cand = call
+		}
+		if n != 1 {
+			return fn
+		}
+		// every (non-receiver) parameter of fn is passed on
+		for i, p := range fn.Params {
+			if i == 0 && fn.Signature.Recv() != nil {
+				continue
+			}
+			passed := false
+			for _, a := range cand.Call.Args {
+				if a == ssa.Value(p) {
+					passed = true
+				}
+			}
+			if !passed {
+				return fn
+			}
+		}
+		// the non-error results are the callee's
+		ok := true
+		for _, b := range fn.Blocks {
+			ret, isRet := b.Instrs[len(b.Instrs)-1].(*ssa.Return)
+			if !isRet || b == fn.Recover {
+				continue
+			}
+			for _, rv := range ret.Results {
+				if isErrorType(rv.Type()) {
+					continue
+				}
+				if ex, isEx := rv.(*ssa.Extract); isEx && ex.Tuple == ssa.Value(cand) {
+					continue
+				}
+				if rv == ssa.Value(cand) {
+					continue
+				}
+				ok = false
+			}
+		}
+		if !ok {
+			return fn
+		}
+		fn = cand.Call.StaticCallee()
+	}
+	return fn
+}
